@@ -295,6 +295,8 @@ struct DFile
 
 static std::string STEM = "app"; // --name app.log (default) | app (no extension) | app.v1.log (dotted stem)
 static std::string EXT = ".log";
+static std::string SINK_STEM = "app"; // what the sink is constructed with (differs from STEM when the sink appends the start date)
+static bool APPEND_DATE = false;
 
 static std::vector<DFile> scan_dir(std::string const& dir, std::map<int, int> const& sizes)
 {
@@ -465,6 +467,7 @@ static Outcome run_history(Cfg const& c, std::vector<Op> const& h, bool count)
     rc.set_remove_old_files(c.remove_old);
     rc.set_open_mode(mode);
     rc.set_write_buffer_size(0);
+    if (APPEND_DATE) rc.set_filename_append_option(FilenameAppendOption::StartDate);
     rc.set_timezone(c.gmt ? Timezone::GmtTime : Timezone::LocalTime);
     if (c.scheme == "date")
       rc.set_rotation_naming_scheme(RotatingFileSinkConfig::RotationNamingScheme::Date);
@@ -506,7 +509,7 @@ static Outcome run_history(Cfg const& c, std::vector<Op> const& h, bool count)
     refx.start(now, 'a', true);
     try
     {
-      aux = std::make_unique<RotatingFileSink>(fs::path{c.dir + "/" + STEM + ".aux" + EXT}, make_cfg('a'), FileEventNotifier{}, tp(now));
+      aux = std::make_unique<RotatingFileSink>(fs::path{c.dir + "/" + SINK_STEM + ".aux" + EXT}, make_cfg('a'), FileEventNotifier{}, tp(now));
       for (int k = 0; k < 3; ++k) aux_write(313);
     }
     catch (std::exception const& e)
@@ -522,7 +525,7 @@ static Outcome run_history(Cfg const& c, std::vector<Op> const& h, bool count)
   std::unique_ptr<RotatingFileSink> sink;
   try
   {
-    sink = std::make_unique<RotatingFileSink>(fs::path{c.dir + "/" + STEM + EXT}, make_cfg(c.mode), FileEventNotifier{}, tp(now));
+    sink = std::make_unique<RotatingFileSink>(fs::path{c.dir + "/" + SINK_STEM + EXT}, make_cfg(c.mode), FileEventNotifier{}, tp(now));
   }
   catch (std::exception const& e)
   {
@@ -560,7 +563,7 @@ static Outcome run_history(Cfg const& c, std::vector<Op> const& h, bool count)
       {
         sink.reset();
         for (int v = 0; v < 3; ++v) ref[v].start(now, o.rmode, false);
-        sink = std::make_unique<RotatingFileSink>(fs::path{c.dir + "/" + STEM + EXT}, make_cfg(o.rmode), FileEventNotifier{}, tp(now));
+        sink = std::make_unique<RotatingFileSink>(fs::path{c.dir + "/" + SINK_STEM + EXT}, make_cfg(o.rmode), FileEventNotifier{}, tp(now));
       }
     }
     catch (std::exception const& e)
@@ -668,15 +671,29 @@ int main(int argc, char** argv)
   c.plant = a.geti("--plant", 0) != 0;
   c.aux = a.geti("--aux", 0) != 0;
   std::string const fname = a.get("--name", "app.log");
+  if (fname != "app+date.log") SINK_STEM = "";
   if (fname == "app")
     EXT = "";
   else if (fname == "app.v1.log")
     STEM = "app.v1";
-  else if (fname != "app.log")
+  else if (fname == "app+date.log")
+  {
+    // FilenameAppendOption::StartDate: the sink is constructed with app.log and names its file app_<date>.log, <date> being the
+    // wall-clock date at construction (the sink does not take it from the start_time argument)
+    APPEND_DATE = true;
+    if (a.get("--zone"))
+    {
+      setenv("TZ", a.get("--zone"), 1);
+      tzset();
+    }
+    STEM = "app_" + fmt_time(time(nullptr), c.gmt, "%Y%m%d");
+  }
+  if (fname != "app.log" && fname != "app" && fname != "app.v1.log" && fname != "app+date.log")
   {
     vf::J("error").s("msg", "unknown --name").emit();
     return 2;
   }
+  if (SINK_STEM.empty()) SINK_STEM = STEM;
   int const depth = static_cast<int>(a.geti("--depth", 4));
   std::string const alphabet = a.get("--alphabet", "c14");
   if (char const* z = a.get("--zone"))
